@@ -5,7 +5,7 @@
     decoder reads m (followed by anything) as p. *)
 From Coq Require Import ZArith List Bool.
 From Hts Require Import Base.Prim Base.WrList Generated Model.Bgzf Model.Writer Model.WriterConc
-  Proofs.Bgzf Proofs.Writer Proofs.WriterConc Proofs.WriterThms Proofs.WrSkel.
+  Model.HasEof Proofs.Bgzf Proofs.Writer Proofs.WriterConc Proofs.WriterThms Proofs.WrSkel Proofs.HasEof.
 Import ListNotations.
 Open Scope Z_scope.
 
@@ -61,6 +61,51 @@ Theorem output_independent_of_wc :
 Proof. exact output_independent_of_wc_gen. Qed.
 Print Assumptions output_independent_of_wc.
 
+(** The 64 KiB boundary itself, for EVERY codec, level, gzip header (also
+    headers larger than hdr_ok allows) and block: whatever writeBlock emits is
+    at most MaxBlockSize = 65536 bytes long, has the BC subfield at 12 and
+    BSIZE = length - 1 (so the 16-bit field never wraps).  The refusal test
+    `size >= MaxBlockSize` is taken from the Go source on every run
+    (bgzf_wr_overflow_check is false for any other comparison). *)
+Theorem emitted_member_fits :
+  forall deflate crc32 lvl h p m,
+    write_block deflate crc32 bgzf_wr_patch_mode bgzf_wr_patch_guard bgzf_wr_overflow_check lvl h [] p = Ok m ->
+    zlen m <= bgzf_MaxBlockSize /\ zlen m <= 65536
+    /\ firstn 4 (skipn 12 m) = [66; 67; 2; 0]
+    /\ getz m 16 + 256 * getz m 17 = zlen m - 1.
+Proof. exact emitted_member_fits_gen. Qed.
+Print Assumptions emitted_member_fits.
+
+(** ... and a member that would be longer is refused (ErrBlockOverflow = 5). *)
+Theorem oversize_member_refused :
+  forall deflate crc32 lvl h p,
+    hdr_err h = false ->
+    bgzf_MaxBlockSize < zlen (raw_member deflate crc32 lvl h p) ->
+    write_block deflate crc32 bgzf_wr_patch_mode bgzf_wr_patch_guard bgzf_wr_overflow_check lvl h [] p = Err 5.
+Proof. exact oversize_member_refused_gen. Qed.
+Print Assumptions oversize_member_refused.
+
+(** HasEOF reports exactly whether the stream ends with the marker: for each
+    of the three kinds of io.ReaderAt its type switch distinguishes (Size(),
+    Stat(), Seek+Len), every content and EVERY cursor position, the result is
+    [ends_with_marker] (an error when the stream is shorter than the marker);
+    a reader with none of the methods gives ErrNoEnd (3).  [haseof_go]
+    interprets the size expressions gen/ reads off bgzf.HasEOF. *)
+Theorem haseof_iff_marker :
+  forall r k,
+    he_methods r = Some k ->
+    0 <= he_pos r <= zlen (he_data r) ->
+    bgzf_haseof_reads_at_size_minus_marker = true
+    /\ haseof_go r = if zlen bgzf_magicBlock <=? zlen (he_data r)
+                     then Ok (ends_with_marker (he_data r)) else Err 2.
+Proof. exact haseof_iff_marker_gen. Qed.
+Print Assumptions haseof_iff_marker.
+
+Theorem haseof_without_extent :
+  forall r, he_methods r = None -> haseof_go r = Err 3.
+Proof. exact haseof_no_methods. Qed.
+Print Assumptions haseof_without_extent.
+
 (** The back-patch read off the current Go source hits the BC subfield
     whatever precedes it (this is what breaks when writeBlock searches for the
     first occurrence of B C 2 0 again). *)
@@ -79,6 +124,11 @@ Theorem members_wellformed_first_index_refuted :
       patch_pos PatchFirstIndex true (raw_member deflate crc32 lvl h p) = Some 4.
 Proof. exact first_index_refuted_gen. Qed.
 Print Assumptions members_wellformed_first_index_refuted.
+
+Example c08_haseof_moved_cursor :
+  haseof_go {| he_data := [9; 9; 9] ++ bgzf_magicBlock; he_pos := 17; he_methods := Some HLenSeeker |} = Ok true
+  /\ ends_with_marker ([9; 9; 9] ++ bgzf_magicBlock) = true.
+Proof. split; reflexivity. Qed.
 
 Example c08_header_bytes :
   gz_header 9 {| h_mtime := 148290; h_os := 3; h_extra := [65; 66; 1; 0; 7]; h_name := [120]; h_comment := [] |}
